@@ -16,6 +16,7 @@ Inductive errk :=
 | ERightNonPrivate                       (* ErrRightmostNonPrivate *)
 | ECountFewer | ECountInvalid            (* ErrRightmostTrustedCount: fewer IPs than expected / invalid IP *)
 | ERangeResolver | ERangeNoValid         (* ErrRightmostTrustedRange: range resolver failed / no valid IP *)
+| EChainEmpty                            (* ErrChain: no resolver configured *)
 | EOther.                                (* anything else the harness observes; never produced by the model *)
 
 Definition errk_eqb (a b : errk) : bool :=
@@ -23,12 +24,13 @@ Definition errk_eqb (a b : errk) : bool :=
   | EInvalidIP, EInvalidIP | EUnspecifiedIP, EUnspecifiedIP | ERemoteInvalid, ERemoteInvalid
   | ERemoteUnspecified, ERemoteUnspecified | ESingleNotFound, ESingleNotFound | ELeftmost, ELeftmost
   | ERightNonPrivate, ERightNonPrivate | ECountFewer, ECountFewer | ECountInvalid, ECountInvalid
-  | ERangeResolver, ERangeResolver | ERangeNoValid, ERangeNoValid | EOther, EOther => true
+  | ERangeResolver, ERangeResolver | ERangeNoValid, ERangeNoValid | EChainEmpty, EChainEmpty | EOther, EOther => true
   | _, _ => false
   end.
 
 (* outcome of resolver.ClientIP: (addr, nil) / (nil, err) with the leaf errors of err in
-   order (errors.Join flattened) / (nil, nil) / panic *)
+   order (errors.Join flattened) / (nil, nil) / panic.  The model never produces NoResult
+   (ModelProofs.resolve_ok_or_err); it exists so that the harness can report it. *)
 Inductive result (A : Type) := Ok (a : A) | Err (es : list errk) | NoResult | Panic.
 Arguments Ok {A} a. Arguments Err {A} es. Arguments NoResult {A}. Arguments Panic {A}.
 
